@@ -194,7 +194,7 @@ pub fn c01(env: &Env) -> i32 {
         env,
         crate::runloop::Oracle::Agreement,
         "after every operation and at the end, per block number every payload any node ever handed to storage or stores is the same, and within one incarnation a node hands blocks over in contiguous increasing order",
-        env.tier.pick(160, 1_600),
+        env.tier.pick(96, 1_600),
     ));
     env.finish(
         "exploration",
@@ -324,18 +324,57 @@ fn c03_check(case: &C03Case, st: &mut Stats) -> Result<(), String> {
     base?;
     let writes = writes.min(40);
     st.max("max_durable_write_points", writes);
+    // the re-runs of one schedule are independent of each other: four helper threads share them (the shards finish
+    // at very different times, so this keeps the cores busy); the verdict is the failure with the lowest crash point
+    let points: Vec<(u64, bool)> = (0..writes).flat_map(|call| [(call, false), (call, true)]).collect();
+    const HELPERS: usize = 4;
+    let results: Vec<(Stats, u64, Option<(usize, String)>)> = std::thread::scope(|s| {
+        let handles: Vec<_> = (0..HELPERS)
+            .map(|h| {
+                let points = &points;
+                s.spawn(move || {
+                    let mut st = Stats::new(0);
+                    let mut nontrivial = 0u64;
+                    let mut failure = None;
+                    for (k, (call, applied)) in points.iter().copied().enumerate().filter(|(k, _)| k % HELPERS == h) {
+                        st.evaluations += 1;
+                        let out = common::guard(|| {
+                            let (r, _, voted, offered) = run_with_crash(case, Some(crate::engine::CrashPoint { call, applied }));
+                            r.map(|()| (voted, offered))
+                        });
+                        match out {
+                            Ok((voted, offered)) => {
+                                st.class(if applied { "crash_after_write_applied" } else { "crash_with_write_lost" });
+                                if voted && offered {
+                                    nontrivial += 1;
+                                    st.nontrivial(common::fingerprint(&(&case.sim.weights, &case.sim.byz, &case.sim.actions, case.victim, call, applied)));
+                                }
+                            }
+                            Err(e) => {
+                                failure = Some((k, e));
+                                break;
+                            }
+                        }
+                    }
+                    (st, nontrivial, failure)
+                })
+            })
+            .collect();
+        handles.into_iter().map(|h| h.join().unwrap_or_else(|_| (Stats::new(0), 0, Some((0, "harness: a helper thread of the crash-point enumeration panicked".to_string()))))).collect()
+    });
     let mut nontrivial = 0;
-    for call in 0..writes {
-        for applied in [false, true] {
-            st.evaluations += 1;
-            let (r, _, voted, offered) = run_with_crash(case, Some(crate::engine::CrashPoint { call, applied }));
-            r?;
-            st.class(if applied { "crash_after_write_applied" } else { "crash_with_write_lost" });
-            if voted && offered {
-                nontrivial += 1;
-                st.nontrivial(common::fingerprint(&(&case.sim.weights, &case.sim.byz, &case.sim.actions, case.victim, call, applied)));
+    let mut first_failure: Option<(usize, String)> = None;
+    for (s2, n, f) in results {
+        st.merge(s2);
+        nontrivial += n;
+        if let Some((k, e)) = f {
+            if first_failure.as_ref().is_none_or(|(k0, _)| k < *k0) {
+                first_failure = Some((k, e));
             }
         }
+    }
+    if let Some((_, e)) = first_failure {
+        return Err(e);
     }
     st.count("crash_points_with_prior_votes_and_old_view_offer", nontrivial);
     st.sample(|| serde_json::json!({"schedule": sample(&case.sim, &RunInfo::default()), "victim": case.victim, "durable_write_points": writes}));
@@ -355,7 +394,7 @@ pub fn c03(env: &Env) -> i32 {
     }
     let mut parts: Vec<PartReport> = vec![];
     parts.extend(common::run_regress::<C03Case>(env, "crash_points", c03_check));
-    for (name, profile, cases) in [("crash_points", EQUIV, env.tier.pick(32u64, 600)), ("crash_points_small", EQUIV_SMALL, env.tier.pick(64, 110))] {
+    for (name, profile, cases) in [("crash_points", EQUIV, env.tier.pick(24u64, 600)), ("crash_points_small", EQUIV_SMALL, env.tier.pick(48, 110))] {
         parts.push(run_proptest(
             env,
             name,
@@ -372,7 +411,7 @@ pub fn c03(env: &Env) -> i32 {
         env,
         crate::runloop::Oracle::Votes,
         "over everything each key ever put on the wire (all incarnations, in emission order): no two different commit votes per view, no commit vote at or below an earlier timeout vote, vote views never decrease; and every vote taken from a node's outbound channel is already recorded by that node's durable replica state (crashes here are sampled by the generator, not enumerated)",
-        env.tier.pick(160, 1_600),
+        env.tier.pick(96, 1_600),
     ));
     env.finish(
         "fault_enumeration",
